@@ -166,9 +166,38 @@ def oplists_from_hists(pid, hists, cmaps, rng, limit):
     STRATA[pid] = {"signature_sequence_classes": n_classes, "single_operation_signatures": n_single[0],
                    "single_operation_signatures_replayed": n_single[1], "behaviours_selected": len(hs)}
     out = []
+    nfold = 0
     for k, h in enumerate(hs):
         cmap = world.CONCRETE[cmaps[k % len(cmaps)]]
+        if any(op.get("cs") is False for op in h):
+            # a case-insensitive operation: concretisations whose case folding changes the LENGTH of a string come first
+            cmap = world.CONCRETE[["sharp", "unicode", cmaps[k % len(cmaps)]][nfold % 3]]
+            nfold += 1
         ops = world.conc_hist(h, cmap)
+        if pid in ("C09", "C10", "C11", "C12") and k % 3 == 2:
+            # the same base converters BUILT INCREMENTALLY: construct from the bare (prefix, URI prefix) pairs, then merge
+            # the synonyms and patterns in -- the specification gives the same converter, the derivation must not notice
+            ops2 = []
+            for op in ops:
+                if op["k"] == "new" and any(r["ps"] or r["us"] for r in op["recs"]):
+                    ops2.append(dict(op, recs=[dict(r, ps=[], us=[]) for r in op["recs"]]))
+                    for r in op["recs"]:
+                        if r["ps"] or r["us"]:
+                            ops2.append({"k": "add", "i": "last", "rec": r, "cs": True, "mg": True, "via": "record"})
+                else:
+                    ops2.append(op)
+            ops = ops2
+        if pid in ("C12", "C10") and k % 3 == 1:
+            # the string the model uses as "unknown to the converter" is first merged into the LAST record as a URI prefix
+            # synonym (an incremental step): re-pointing another record to it is now a clash and must leave both untouched
+            ops2 = []
+            for op in ops:
+                ops2.append(op)
+                if op["k"] == "new" and len(op["recs"]) >= 2 and len(ops2) == 1:
+                    r = op["recs"][-1]
+                    ops2.append({"k": "add", "i": "last", "rec": {"p": r["p"], "u": r["u"], "ps": [], "us": [cmap[9]], "pat": None},
+                                 "cs": True, "mg": True, "via": "record"})
+            ops = ops2
         if pid == "C01":
             news = [op for op in ops if op["k"] == "new"]
             if news and len(news[-1]["recs"]) >= 2:
